@@ -42,6 +42,13 @@ def c02():
             it["p"] += 3 * r["U"]                              # whole layout shifted by 3 units: still separated, not optimal
     r["opts"]["maxPos"] += 100 * r["U"]
     yield "every position shifted by 3 units", "LayoutTrace", "LayoutC02.cfg", r, "C02_WithinHalfOfOptimum"
+    out = core.run_driver("d_layout.py", stdin_obj={"seed": 0, "mode": "instances", "instances": [
+        {"labels": [[10, 4], [11, 4], [30, 6]], "opts": {"nodeSpacing": 3, "minPos": None, "maxPos": None, "density": 1, "stubWidth": 1,
+                                                        "algorithm": "none"}}]})
+    r = copy.deepcopy(out["records"][0])
+    for it in r["layers"][0]:
+        it["p"] += r["U"]                                       # one unit: separation intact, 1 > 0.5 away from the optimum
+    yield "every position shifted by 1 unit (no bounds)", "LayoutTrace", "LayoutC02.cfg", r, "C02_WithinHalfOfOptimum"
 
 
 def c03():
@@ -73,6 +80,9 @@ def c05():
     r["pos"][v] -= 5000                                         # right end of an active constraint moved left by 0.5
     r["pos6"][v] -= 500000
     yield "a variable moved 0.5 into a tight constraint", "VpscTrace", "VpscTrace.cfg", r, "C05_Feasible"
+    r = _first(recs, lambda r: r["acyclic"] and not any(r["act"]) and r["terminated"])
+    r["pos"][0] += 100                                          # a free variable 0.01 away from its desired position
+    yield "a free variable moved by 0.01", "VpscTrace", "VpscTrace.cfg", r, "C05_Optimal"
     r = _first(recs, lambda r: r["acyclic"] and r["ret12"])
     r["ret12"] = list(r["ret12"])
     r["ret12"][-1] = (r["ret12"][-1] + 7) % 10000 or 1
@@ -127,9 +137,26 @@ def c13():
     r = _first(recs, lambda r: True)
     del r["tq"][1], r["n"][1], r["lab"][1], r["lq"][1]
     yield "one inner tick removed", "LinTrace", "LinC13.cfg", r, "C13_Multiples"
+    r = _first(recs, lambda r: r["Q"] == 1000)
+    r["tq"][1] += 10 * r["mant"]                                # 1% of the step
+    yield "one tick 1% of a step off its multiple", "LinTrace", "LinC13.cfg", r, "C13_Multiples"
     r = _first(recs, lambda r: True)
     r["lab"][1] = r["lab"][0]
     yield "two ticks carry the same label", "LinTrace", "LinC13.cfg", r, "C13_LabelsDistinct"
+
+
+def c14():
+    out = core.run_driver("d_linscale.py", stdin_obj={"mode": "ticks", "seed": 2, "count": 60})
+    recs = [r for r in out["records"] if r["kind"] == "nice" and r["Q"] == 1000]
+    r = _first(recs, lambda r: True)
+    r["nlo"] = r["lo"] + 20 * r["mant"]                         # lower end moved INWARD by 2% of a step
+    yield "niced lower end 2% of a step inside the domain", "LinTrace", "LinC14.cfg", r, "C14_NeverInward"
+    out = core.run_driver("d_timescale.py", stdin_obj={"seed": 1, "mode": "nice", "random": 60})
+    recs = [r for r in out["records"] if len(r["ticks"]) >= 3 and r["ticks"][1][0] - r["ticks"][0][0] >= 1]
+    r = _first(recs, lambda r: True)
+    lo = min(r["niced"], key=lambda x: (x[0], x[1]))
+    lo[0] -= 4000                                               # lower end moved out by 4000 days: far more than two tick steps? only if ticks are finer
+    yield "niced lower end moved out by 4000 days", "TimeTrace", "TimeC14.cfg", r, "C14_LessThanTwoTickSteps"
 
 
 def c15():
@@ -149,6 +176,10 @@ def c16():
     r = _first(recs, lambda r: True)
     r["ticks"][1][1] = (r["ticks"][1][1] + 1234) % 86400000
     yield "one tick 1.234 s off its calendar boundary", "TimeTrace", "TimeC16.cfg", r, "C16_BoundaryClass"
+    r = _first(recs, lambda r: True)
+    hi = max(r["dom"], key=lambda x: (x[0], x[1]))
+    r["ticks"].append([hi[0] + 400, 0, 0])                      # a tick far beyond the domain
+    yield "a tick 400 days beyond the domain", "TimeTrace", "TimeC16.cfg", r, "C16_InDomain"
 
 
 def c17():
@@ -183,7 +214,7 @@ def c20():
 
 
 TABLE = {"C01": c01, "C02": c02, "C03": c03, "C04": c04, "C05": c05, "C07": c07, "C08": c08, "C09": c09, "C12": c12, "C13": c13,
-         "C15": c15, "C16": c16, "C17": c17, "C19": c19, "C20": c20}
+         "C14": c14, "C15": c15, "C16": c16, "C17": c17, "C19": c19, "C20": c20}
 
 
 def run(pid):
